@@ -154,6 +154,23 @@ def machine_part(ck, items, tier):
                              key='mach' + c['ebnf'] + why[:20])
     ck.count(evaluations=n, traces=n)
     ck.notes['machine_cases'] = n
+    # code -> spec: real executions under small memo capacities and with pruning off: every (re-)evaluation and every memo hit of the
+    # recorded run must be explainable by the machine (a hit only for a (position, rule) evaluated before, with the same value)
+    from ..pegcheck import trace_validate
+    tcases = []
+    settings_list = [{'perlinememos': 0.01}, {'perlinememos': 0.5}, {'prune_memos_on_cut': False}, {}]
+    for k, (it, g) in enumerate(zip(pick, marked)):
+        texts = [''.join(t) for t in it['texts'] if len(t) <= 4][:24]
+        st = dict(it.get('settings') or {})
+        extra = settings_list[k % len(settings_list)]
+        st.update(extra)
+        cfg = make_cfg(chars_of(g, it['texts']), **{kk: v for kk, v in (it.get('cfg') or {}).items()})
+        cfg['maxmiss'] = 100000
+        cfg['prune'] = extra.get('prune_memos_on_cut', True)
+        if (it.get('case') or {}).get('sem'):
+            continue            # the recorder does not wrap semantics objects yet
+        tcases.append({'ebnf': to_ebnf(it['g']), 'g': g, 'cfg': cfg, 'texts': texts, 'settings': st})
+    trace_validate(ck, tcases, label='C04 memo capacities')
 
 
 def run(tier):
